@@ -64,11 +64,13 @@ theorem keyOwnedLoop_quiet (F : Facts) (k : Key) (uid : Nat) : ∀ (l : List IP)
       · exact ih s
       · split
         · exact ih s
-        · have pq := podRunning_quiet F s k.pod k.ns r.uid
-          split
-          · exact pq
-          · have r2 := ih (podRunning F s k.pod k.ns r.uid).1
-            exact ⟨pq.1.trans r2.1, r2.2.trans pq.2⟩
+        · split
+          · exact ih s
+          · have pq := podRunning_quiet F s k.pod k.ns r.uid
+            split
+            · exact pq
+            · have r2 := ih (podRunning F s k.pod k.ns r.uid).1
+              exact ⟨pq.1.trans r2.1, r2.2.trans pq.2⟩
 
 theorem keyOwned_quiet (F : Facts) (s : State) (k : Key) (uid : Nat) :
     QuietStep s (keyOwnedByRunningPod F s k uid).1 ∧ (keyOwnedByRunningPod F s k uid).1.plog = s.plog := by
@@ -105,15 +107,23 @@ theorem keyOwnedLoop_live (q : Pod) (uid : Nat) (hne : uid ≠ q.uid) : ∀ (l :
         · rename_i hux
           exact ih s h hq hnf (tail_of_ne (by intro e; subst e; rw [hr] at hx; cases hx; exact hne (hux.symm.trans hu)))
         · split
-          · rfl
-          · rename_i hrun
-            have pq := (podRunning_quiet Facts.good s (keyOf q).pod (keyOf q).ns rx.uid).1
-            have hx' : x ≠ ip := by
-              intro e; subst e
-              rw [hr] at hx; cases hx
-              exact hrun (podRunning_live s q r.uid h hq hnf (Or.inr hu))
-            obtain ⟨ip', hm', r', hr', hk', hu'⟩ := tail_of_ne hx'
-            exact ih _ (h.quiet pq) (by rw [pq.frame.pods]; exact hq) hnf ⟨ip', hm', r', by rw [pq.alloc]; exact hr', hk', hu'⟩
+          · -- a record without uid is skipped: it is not the live pod's (whose uid is not 0)
+            rename_i h0
+            have hq0 : q.uid ≠ 0 := (h.podsWF _ q hq).2.1
+            exact ih s h hq hnf (tail_of_ne (by
+              intro e; subst e; rw [hr] at hx; cases hx
+              simp only [good_keyOwnedSkipsEmptyUid, Bool.true_and, beq_iff_eq] at h0
+              exact hq0 (hu.symm.trans h0)))
+          · split
+            · rfl
+            · rename_i hrun
+              have pq := (podRunning_quiet Facts.good s (keyOf q).pod (keyOf q).ns rx.uid).1
+              have hx' : x ≠ ip := by
+                intro e; subst e
+                rw [hr] at hx; cases hx
+                exact hrun (podRunning_live s q r.uid h hq hnf (Or.inr hu))
+              obtain ⟨ip', hm', r', hr', hk', hu'⟩ := tail_of_ne hx'
+              exact ih _ (h.quiet pq) (by rw [pq.frame.pods]; exact hq) hnf ⟨ip', hm', r', by rw [pq.alloc]; exact hr', hk', hu'⟩
 
 /-- resync / Release found the examined record's pod not running and the key not owned by a running pod: then no
     live bound pod has this key -/
